@@ -49,6 +49,9 @@ var (
 	opDataARAI = MOp{K: "data", PID: 0x100, Len: 50, AF: "raipcr"}
 	opDataAprv = MOp{K: "data", PID: 0x100, Len: 400, AF: "priv10"}
 	opDataAopc = MOp{K: "data", PID: 0x100, Len: 200, AF: "opcr"}
+	// a header that uses every optional field, and one that also sets the pack header flag the writer cannot express
+	opDataAfull = MOp{K: "data", PID: 0x100, Len: 300, Hdr: "full"}
+	opDataApack = MOp{K: "data", PID: 0x100, Len: 300, Hdr: "pack"}
 	// no PES data at all, only an adaptation field (with and without stuffing requested by the caller)
 	opDataA0pcr   = MOp{K: "data", PID: 0x100, AF: "pcr"}
 	opDataA0stp   = MOp{K: "data", PID: 0x100, AF: "noroomstuffpcr"}
@@ -82,7 +85,7 @@ var (
 
 var muxFullAlpha = []MOp{
 	opAddA, opAddB, opAddC, opAddD, opAddAuto, opRmA, opRmB, opRmX, opPcrA, opPcrB, opPcrX, opTables,
-	opDataA1, opDataAfit, opDataAs1, opDataAs2, opDataA3, opDataA17, opDataARAI, opDataAprv, opDataAopc, opDataA0pcr, opDataA0stp, opDataAnor, opDataAhdr,
+	opDataA1, opDataAfit, opDataAs1, opDataAs2, opDataA3, opDataA17, opDataARAI, opDataAprv, opDataAopc, opDataA0pcr, opDataA0stp, opDataAnor, opDataAhdr, opDataAfull, opDataApack,
 	opDataB1, opDataBRAI, opDataAuto, opDataX,
 	opPktNull, opPktOwn, opPktAF, opPktShort, opPktBig, opPktStale, opPktWrap, opPktPriv0, opPktAF252, opDataApr0, opAddMany, opRmMany,
 }
